@@ -282,6 +282,12 @@ class Interp(object):
         sub = self.program.module(full + '.' + name)
         if sub is not None:
             return ModuleVal(sub)
+        # a name the module itself got through "from .x import *"
+        for (lv, target2) in getattr(m, 'star_imports', ()):
+            try:
+                return self.import_from(m, lv, target2, name)
+            except EngineError:
+                continue
         raise EngineError('cannot import %s from %s' % (name, full))
 
     # ------------------------------------------------------------------ functions/classes
